@@ -44,9 +44,13 @@ pub struct Case {
     pub writes: u32,
     pub leaf: Leaf,
     pub primary: u8,
+    /// the sender is the rightmost member (leaf 2 of 3) instead of the creator at leaf 0
+    pub rightmost: bool,
 }
 
 fn run_case(c: &Case, ctx: &mut Ctx) {
+    // the sender is the creator at leaf 0, or the rightmost member (its removal trims the tree)
+    let (sp, cp) = if c.rightmost { (2usize, 0usize) } else { (0usize, 2usize) };
     let cfg = WorldCfg { retention: c.retention, ..Default::default() };
     let mut w = World::new(cfg, 4);
     stores::tee_clear();
@@ -57,10 +61,12 @@ fn run_case(c: &Case, ctx: &mut Ctx) {
     stores::install(table);
     let r = std::panic::catch_unwind(std::panic::AssertUnwindSafe(|| {
         let setup = (|| {
-            w.create(S)?;
-            let b = w.commit(S, &CommitSpec { props: vec![Prop::Add(B), Prop::Add(C)], ..Default::default() })?;
-            w.apply(S)?;
-            for p in [B, C] {
+            let creator = sp.min(cp);
+            let third = sp.max(cp);
+            w.create(creator)?;
+            let b = w.commit(creator, &CommitSpec { props: vec![Prop::Add(B), Prop::Add(third)], ..Default::default() })?;
+            w.apply(creator)?;
+            for p in [B, third] {
                 w.join(p, &b.out.welcome_messages[0], None)?;
             }
             Ok::<(), mls_rs::error::MlsError>(())
@@ -69,8 +75,8 @@ fn run_case(c: &Case, ctx: &mut Ctx) {
             crate::engine::machinery("C19 setup failed");
         }
         let join_epoch = w.g(B).current_epoch();
-        let s_leaf = w.leaf_of(S);
-        let s_sig = w.parties[S].identity.signature_key.to_vec();
+        let s_leaf = w.leaf_of(sp);
+        let s_sig = w.parties[sp].identity.signature_key.to_vec();
         let mut last_write_epoch: Option<u64> = None;
         let mut msg = None;
         let mut e0 = 0;
@@ -111,8 +117,8 @@ fn run_case(c: &Case, ctx: &mut Ctx) {
         }
         for i in 0..=c.commits {
             if i == c.sent_after {
-                e0 = w.g(S).current_epoch();
-                match w.send(S, b"late message", b"late-aad") {
+                e0 = w.g(sp).current_epoch();
+                match w.send(sp, b"late message", b"late-aad") {
                     Ok(m) => msg = Some(m),
                     Err(_) => return,
                 }
@@ -132,12 +138,12 @@ fn run_case(c: &Case, ctx: &mut Ctx) {
             // commit i of the chain
             let action = if msg.is_some() && !todo.is_empty() { todo.remove(0) } else { "c-commits" };
             let (by, spec) = match action {
-                "s-commits" => (S, CommitSpec::default()),
-                "s-rekeys" => (S, CommitSpec { rekey: true, ..Default::default() }),
-                "remove-s" => (C, CommitSpec { props: vec![Prop::Remove(S)], ..Default::default() }),
-                "add-d" => (C, CommitSpec { props: vec![Prop::Add(D)], ..Default::default() }),
-                "add-s" => (C, CommitSpec { props: vec![Prop::Add(S)], ..Default::default() }),
-                _ => (C, CommitSpec::default()),
+                "s-commits" => (sp, CommitSpec::default()),
+                "s-rekeys" => (sp, CommitSpec { rekey: true, ..Default::default() }),
+                "remove-s" => (cp, CommitSpec { props: vec![Prop::Remove(sp)], ..Default::default() }),
+                "add-d" => (cp, CommitSpec { props: vec![Prop::Add(D)], ..Default::default() }),
+                "add-s" => (cp, CommitSpec { props: vec![Prop::Add(sp)], ..Default::default() }),
+                _ => (cp, CommitSpec::default()),
             };
             if !w.is_member(by) {
                 return;
@@ -154,12 +160,12 @@ fn run_case(c: &Case, ctx: &mut Ctx) {
             }
             match action {
                 "remove-s" => {
-                    w.retire(S, true);
+                    w.retire(sp, true);
                     leaf_changed = true;
                     sig_key_at_leaf_same = false;
                 }
                 "add-d" | "add-s" => {
-                    let x = if action == "add-d" { D } else { S };
+                    let x = if action == "add-d" { D } else { sp };
                     if let Some(wm) = built.out.welcome_messages.first() {
                         let _ = w.join(x, wm, None);
                     }
@@ -278,7 +284,13 @@ pub fn cases(tier: &str) -> Vec<Case> {
                             if quick && primary == 1 && (writes.count_ones() % 2 == 0) && leaf != Leaf::Untouched {
                                 continue;
                             }
-                            out.push(Case { retention, commits, sent_after, writes, leaf, primary });
+                            for rightmost in [false, true] {
+                                // the rightmost sender matters where its leaf is vacated
+                                if rightmost && matches!(leaf, Leaf::Untouched | Leaf::HpkeRekey | Leaf::SigRekey) && quick {
+                                    continue;
+                                }
+                                out.push(Case { retention, commits, sent_after, writes, leaf, primary, rightmost });
+                            }
                         }
                     }
                 }
@@ -291,7 +303,7 @@ pub fn cases(tier: &str) -> Vec<Case> {
 pub fn meta(tier: &str) -> Meta {
     Meta {
         level: "model_checking",
-        rule: "every case (retention R in 1..3) x (chain of 1..R+3 commits) x (epoch at which the message is sent) x (every subset of positions at which the receiver writes, incl. before the first commit) x (6 fates of the sender's leaf) x (which shipped store answers) is executed from scratch on real members with the tee store; the delivery outcome is judged against the retention model `retained = [max(join, last_write_epoch - R), current]`, the attribution rule (leaf still carries the sender's signature key), and after every write the stored window is read back epoch by epoch from the in-memory store, the SQLite store and the model; states = cases, transitions = commits executed".into(),
+        rule: "every case (retention R in 1..3) x (chain of 1..R+3 commits) x (epoch at which the message is sent) x (every subset of positions at which the receiver writes, incl. before the first commit) x (7 fates of the sender's leaf) x (sender = creator at leaf 0 / rightmost member, whose removal trims the tree) x (which shipped store answers) is executed from scratch on real members with the tee store; the delivery outcome is judged against the retention model `retained = [max(join, last_write_epoch - R), current]`, the attribution rule (leaf still carries the sender's signature key), and after every write the stored window is read back epoch by epoch from the in-memory store, the SQLite store and the model; states = cases, transitions = commits executed".into(),
         assumptions: {
             let mut a = default_assumptions();
             a.push("a signature re-key of the same member between sending and delivery may be accepted or refused; both count as correct attribution".into());
